@@ -101,6 +101,10 @@ impl<F, const D: usize> CircuitBuilder<F, D> {
 pub enum VkId { Fixed(int), Witness }
 
 /// nothing observable except the constraint set changed
+/// TB-5 (honest mode): "the wire assignment `val` is the one the gates' witness generators compute from the input wires". Under
+/// honest(), a computing gadget defines its output unconditionally and cannot make the constraint system fail; an asserting gadget
+/// (connect, range checks, ...) turns `sat` into `old.sat && its condition`. Used only for the completeness (<=) directions.
+pub uninterp spec fn honest() -> bool;
 pub open spec fn bframe<F, const D: usize>(o: &CircuitBuilder<F, D>, n: &CircuitBuilder<F, D>) -> bool {
     n.pis() == o.pis() && n.verified() == o.verified()
 }
@@ -115,31 +119,43 @@ impl<F: RichField + Extendable<D>, const D: usize> CircuitBuilder<F, D> {
     pub fn constant(&mut self, c: F) -> (r: Target)
         ensures bframe(old(self), final(self)), bext(old(self), final(self)),
                 final(self).sat() ==> val(r) == c.fv(),
+                honest() ==> final(self).sat() == old(self).sat(),   // TB-5: a computing gadget's own constraints hold for the generators' witness
+                honest() ==> val(r) == c.fv(),
     { unimplemented!() }
     #[verifier::external_body]
     pub fn zero(&mut self) -> (r: Target)
         ensures bframe(old(self), final(self)), bext(old(self), final(self)),
                 final(self).sat() ==> val(r) == 0,
+                honest() ==> final(self).sat() == old(self).sat(),   // TB-5: a computing gadget's own constraints hold for the generators' witness
+                honest() ==> val(r) == 0,
     { unimplemented!() }
     #[verifier::external_body]
     pub fn one(&mut self) -> (r: Target)
         ensures bframe(old(self), final(self)), bext(old(self), final(self)),
                 final(self).sat() ==> val(r) == 1,
+                honest() ==> final(self).sat() == old(self).sat(),   // TB-5: a computing gadget's own constraints hold for the generators' witness
+                honest() ==> val(r) == 1,
     { unimplemented!() }
     #[verifier::external_body]
     pub fn _false(&mut self) -> (r: BoolTarget)
         ensures bframe(old(self), final(self)), bext(old(self), final(self)),
                 final(self).sat() ==> val(r.target) == 0,
+                honest() ==> final(self).sat() == old(self).sat(),   // TB-5: a computing gadget's own constraints hold for the generators' witness
+                honest() ==> val(r.target) == 0,
     { unimplemented!() }
     #[verifier::external_body]
     pub fn _true(&mut self) -> (r: BoolTarget)
         ensures bframe(old(self), final(self)), bext(old(self), final(self)),
                 final(self).sat() ==> val(r.target) == 1,
+                honest() ==> final(self).sat() == old(self).sat(),   // TB-5: a computing gadget's own constraints hold for the generators' witness
+                honest() ==> val(r.target) == 1,
     { unimplemented!() }
     #[verifier::external_body]
     pub fn constant_bool(&mut self, b: bool) -> (r: BoolTarget)
         ensures bframe(old(self), final(self)), bext(old(self), final(self)),
                 final(self).sat() ==> val(r.target) == b2i(b),
+                honest() ==> final(self).sat() == old(self).sat(),   // TB-5: a computing gadget's own constraints hold for the generators' witness
+                honest() ==> val(r.target) == b2i(b),
     { unimplemented!() }
 
     // --- arithmetic: gadgets/arithmetic.rs (ArithmeticGate: c0*x*y + c1*z)
@@ -147,6 +163,8 @@ impl<F: RichField + Extendable<D>, const D: usize> CircuitBuilder<F, D> {
     pub fn add(&mut self, a: Target, b: Target) -> (r: Target)
         ensures bframe(old(self), final(self)), bext(old(self), final(self)),
                 final(self).sat() ==> val(r) == fadd(val(a), val(b)),
+                honest() ==> final(self).sat() == old(self).sat(),   // TB-5: a computing gadget's own constraints hold for the generators' witness
+                honest() ==> val(r) == fadd(val(a), val(b)),
     { unimplemented!() }
     /// gadgets/arithmetic.rs:200 `terms.fold(zero, |acc, t| add(acc, t))` (rule N4c passes the iterated sequence)
     #[verifier::external_body]
@@ -164,11 +182,15 @@ impl<F: RichField + Extendable<D>, const D: usize> CircuitBuilder<F, D> {
     pub fn sub(&mut self, a: Target, b: Target) -> (r: Target)
         ensures bframe(old(self), final(self)), bext(old(self), final(self)),
                 final(self).sat() ==> val(r) == fsub(val(a), val(b)),
+                honest() ==> final(self).sat() == old(self).sat(),   // TB-5: a computing gadget's own constraints hold for the generators' witness
+                honest() ==> val(r) == fsub(val(a), val(b)),
     { unimplemented!() }
     #[verifier::external_body]
     pub fn mul(&mut self, a: Target, b: Target) -> (r: Target)
         ensures bframe(old(self), final(self)), bext(old(self), final(self)),
                 final(self).sat() ==> val(r) == fmul(val(a), val(b)),
+                honest() ==> final(self).sat() == old(self).sat(),   // TB-5: a computing gadget's own constraints hold for the generators' witness
+                honest() ==> val(r) == fmul(val(a), val(b)),
     { unimplemented!() }
     #[verifier::external_body]
     pub fn mul_const(&mut self, c: F, a: Target) -> (r: Target)
@@ -187,22 +209,30 @@ impl<F: RichField + Extendable<D>, const D: usize> CircuitBuilder<F, D> {
     pub fn not(&mut self, b: BoolTarget) -> (r: BoolTarget)
         ensures bframe(old(self), final(self)), bext(old(self), final(self)),
                 final(self).sat() ==> val(r.target) == fsub(1, val(b.target)),
+                honest() ==> final(self).sat() == old(self).sat(),   // TB-5: a computing gadget's own constraints hold for the generators' witness
+                honest() ==> val(r.target) == fsub(1, val(b.target)),
     { unimplemented!() }
     #[verifier::external_body]
     pub fn and(&mut self, b1: BoolTarget, b2: BoolTarget) -> (r: BoolTarget)
         ensures bframe(old(self), final(self)), bext(old(self), final(self)),
                 final(self).sat() ==> val(r.target) == fmul(val(b1.target), val(b2.target)),
+                honest() ==> final(self).sat() == old(self).sat(),   // TB-5: a computing gadget's own constraints hold for the generators' witness
+                honest() ==> val(r.target) == fmul(val(b1.target), val(b2.target)),
     { unimplemented!() }
     #[verifier::external_body]
     pub fn or(&mut self, b1: BoolTarget, b2: BoolTarget) -> (r: BoolTarget)
         ensures bframe(old(self), final(self)), bext(old(self), final(self)),
                 final(self).sat() ==> val(r.target) == f_or(val(b1.target), val(b2.target)),
+                honest() ==> final(self).sat() == old(self).sat(),   // TB-5: a computing gadget's own constraints hold for the generators' witness
+                honest() ==> val(r.target) == f_or(val(b1.target), val(b2.target)),
     { unimplemented!() }
     // gadgets/select.rs:33
     #[verifier::external_body]
     pub fn select(&mut self, b: BoolTarget, x: Target, y: Target) -> (r: Target)
         ensures bframe(old(self), final(self)), bext(old(self), final(self)),
                 final(self).sat() ==> val(r) == fsel(val(b.target), val(x), val(y)),
+                honest() ==> final(self).sat() == old(self).sat(),   // TB-5: a computing gadget's own constraints hold for the generators' witness
+                honest() ==> val(r) == fsel(val(b.target), val(x), val(y)),
     { unimplemented!() }
 
     // arithmetic.rs:370 — eq*(x-y)=0 and (x-y)*inv = 1-eq; P prime => eq is boolean and eq=1 <=> x=y
@@ -210,6 +240,8 @@ impl<F: RichField + Extendable<D>, const D: usize> CircuitBuilder<F, D> {
     pub fn is_equal(&mut self, x: Target, y: Target) -> (r: BoolTarget)
         ensures bframe(old(self), final(self)), bext(old(self), final(self)),
                 final(self).sat() ==> is_bool(val(r.target)) && (val(r.target) == 1 <==> val(x) == val(y)),
+                honest() ==> final(self).sat() == old(self).sat(),   // TB-5: a computing gadget's own constraints hold for the generators' witness
+                honest() ==> is_bool(val(r.target)) && (val(r.target) == 1 <==> val(x) == val(y)),
     { unimplemented!() }
 
     // circuit_builder.rs connect(): copy constraint
@@ -217,6 +249,7 @@ impl<F: RichField + Extendable<D>, const D: usize> CircuitBuilder<F, D> {
     pub fn connect(&mut self, x: Target, y: Target)
         ensures bframe(old(self), final(self)), bext(old(self), final(self)),
                 final(self).sat() ==> val(x) == val(y),
+                honest() ==> (final(self).sat() == (old(self).sat() && val(x) == val(y))),   // TB-5: an asserting gadget adds exactly its condition
     { unimplemented!() }
     #[verifier::external_body]
     pub fn connect_hashes(&mut self, x: HashOutTarget, y: HashOutTarget)
